@@ -41,6 +41,12 @@ def make_job(name, parts, expect):
             if outcome[0] == 'skip': continue
             def viol(what, mdl2=None): obs['viol'] = {'what': what, 'wit': witness(mdl2 or mdl)}
             if obs['panic']: viol('internal panic: ' + obs['panic']); break
+            if outcome[0] == 'out-any':
+                if code != 0: viol('exit %s (stderr %r), expected one of %r' % (code, F.eval_pieces(mdl, ep)[:120], outcome[1])); break
+                obs['nq'] += 1
+                if not any(F.compare_pieces(s, op, alt) is None for alt in outcome[1]): viol('stdout %r is none of the admissible outputs %r' % (F.eval_pieces(mdl, op)[:120], outcome[1]))
+                if obs['viol']: break
+                continue
             if outcome[0] == 'out':
                 if code != 0: viol('exit %s (stderr %r), expected output %r' % (code, F.eval_pieces(mdl, ep)[:120], F.eval_pieces(mdl, outcome[1])[:80])); break
                 obs['nq'] += 1
@@ -136,6 +142,24 @@ def jobs_for(tier):
             parts = [head, b'print($"'] + syms('p', n1) + [b'${' + e1 + b'}'] + syms('q', n2) + [b'${' + e2 + b'}'] + syms('r', n3) + [b'")\n']
             def exp(sym, zs, n1=n1, n2=n2, n3=n3, v1=v1, v2=v2): return [(z3.BoolVal(True), ('out', bt(sym, 'p', n1) + [v1] + bt(sym, 'q', n2) + [v2] + bt(sym, 'r', n3) + [b'\n']))]
             J.append(make_job('interp-%d%d%d-%d' % (n1, n2, n3, pi), parts, exp))
+    # non-ASCII text INSIDE the slot source (string literals, keys) with symbolic text around the slot
+    inner_pool = [(b'a + " \xe2\x82\xac"', b'x \xe2\x82\xac'), (b'"\xc3\xa9\xc3\xa9"', b'\xc3\xa9\xc3\xa9'), (b'{"\xc3\xbc": a}["\xc3\xbc"]', b'x'), (b'f("\xf0\x9f\x98\x80")', b'\xf0\x9f\x98\x80!'), (b'"\xe6\x97\xa5" + b', b'\xe6\x97\xa5yz')]
+    for pi, (e1, v1) in enumerate(inner_pool):
+        for (n1, n3) in ((0, 0), (1, 0), (0, 1), (1, 1)):
+            parts = [head, b'print($"'] + syms('p', n1) + [b'${' + e1 + b'}'] + syms('r', n3) + [b'${a}")\n']
+            def expi(sym, zs, n1=n1, n3=n3, v1=v1): return [(z3.BoolVal(True), ('out', bt(sym, 'p', n1) + [v1] + bt(sym, 'r', n3) + [b'x\n']))]
+            J.append(make_job('interp-inner-%d-%d%d' % (pi, n1, n3), parts, expi))
+    # every slot is evaluated, in order, once per occurrence -- also when two slots have the same source text
+    eff = b'cnt := 0\nfn take() {\n    cnt += 1\n    return "#" + ["0", "1", "2", "3", "4"][cnt]\n}\ncur := "A"\nfn step() {\n    cur = cur + "b"\n    return "-"\n}\n'
+    for n1 in range(0, 2):
+        parts = [eff, b'print($"'] + syms('p', n1) + [b'${take()},${take()}'] + syms('q', n1) + [b'${take()}")\nprint($"${cur}${step()}${cur}${step()}${cur}")\nprint(cnt)\n']
+        def expe(sym, zs, n1=n1): return [(z3.BoolVal(True), ('out', bt(sym, 'p', n1) + [b'#1,#2'] + bt(sym, 'q', n1) + [b'#3\nA-Ab-Abb\n3\n']))]
+        J.append(make_job('interp-effects-%d' % n1, parts, expe))
+    # a hex escape >= 0x80 left of a slot: what the escape denotes is not stated (character U+00HH or byte HH), but the slot must still be found
+    for hx, alts in ((b'e9', [b'\xc3\xa9', b'\xe9']), (b'80', [b'\xc2\x80', b'\x80']), (b'ff', [b'\xc3\xbf', b'\xff'])):
+        parts = [head, b'print($"caf\\x' + hx + b' ${a}!${b}")\n']
+        def exph(sym, zs, alts=alts): return [(z3.BoolVal(True), ('out-any', [[b'caf' + alt + b' x!yz\n'] for alt in alts]))]
+        J.append(make_job('interp-hex-high-%s' % hx.decode(), parts, exph))
     # one slot, and no slot
     for n1 in range(0, K + 1):
         parts = [head, b'print($"'] + syms('p', n1) + [b'${a}")\nprint($"'] + syms('p', n1) + [b'")\n']
